@@ -138,9 +138,25 @@ func (c RawConfiguration) handleCorrectableCall(ctx context.Context, corr *Corre
 	)
 
 	if state.data.ServerStream {
-		for _, n := range c {
-			defer n.channel.deleteRouter(state.md.MessageID)
-		}
+		defer func() {
+			// Keep receiving while the routers are removed: a node that has more
+			// replies than the reply channel can hold blocks in routeResponse with
+			// the routing lock held, which deleteRouter needs.
+			done := make(chan struct{})
+			go func() {
+				for {
+					select {
+					case <-state.replyChan:
+					case <-done:
+						return
+					}
+				}
+			}()
+			for _, n := range c {
+				n.channel.deleteRouter(state.md.MessageID)
+			}
+			close(done)
+		}()
 	}
 
 	for {
